@@ -83,7 +83,9 @@ def check_c08(src, ref):
         scfg = AST2SCFGTransformer(src).transform_to_SCFG()
     except NotImplementedError:
         return ('refused', None)
-    except Exception as e:
+    except BaseException as e:
+        if isinstance(e, (KeyboardInterrupt, SystemExit)):
+            raise
         return ('fail', {'kind': 'internal:' + type(e).__name__, 'detail': frames(e)})
     # every reachable statement in exactly one block: statement objects are unique across blocks
     seen = set()
@@ -116,11 +118,35 @@ def check_c07_c10(src, ref):
         scfg, out = transform(src)
     except NotImplementedError:
         return {'C07': ('refused', None), 'C10': ('refused', None)}
-    except INTERNAL as e:
+    except BaseException as e:     # anything but NotImplementedError is an internal error of the pipeline
+        if isinstance(e, (KeyboardInterrupt, SystemExit)):
+            raise
         f = ('fail', {'kind': 'internal:' + type(e).__name__, 'detail': frames(e)})
         return {'C07': f, 'C10': ('skipped', None)}
     # ---- C10 static census
     res['C10'] = census(src, scfg, out)
+    if res['C10'][0] == 'ok':
+        # code generation must not consume or alter the graph: generating again gives the same text and the
+        # statement lists of the blocks are untouched
+        from spec.hier import Index
+        from numba_scfg.core.datastructures.ast_transforms import SCFG2AST
+        from numba_scfg.core.datastructures.basic_block import PythonASTBlock
+        before = {n: [id(t) for t in b.tree] for n, (b, _, _) in Index(scfg).tab.items() if isinstance(b, PythonASTBlock)}
+        try:
+            t1 = ast.unparse(ast.fix_missing_locations(out))
+            out2 = SCFG2AST(src, scfg)
+            t2 = ast.unparse(ast.fix_missing_locations(out2))
+            after = {n: [id(t) for t in b.tree] for n, (b, _, _) in Index(scfg).tab.items() if isinstance(b, PythonASTBlock)}
+            if after != before:
+                res['C10'] = ('fail', {'kind': 'graph-mutated-by-codegen', 'detail': [n for n in before if before[n] != after.get(n)][:3]})
+            elif t1 != t2:
+                res['C10'] = ('fail', {'kind': 'second-generation-differs', 'detail': [t1[:200], t2[:200]]})
+            else:
+                c2 = census(src, scfg, out2)
+                if c2[0] != 'ok':
+                    res['C10'] = ('fail', {'kind': 'second-generation:' + c2[1]['kind'], 'detail': c2[1]['detail']})
+        except Exception as e:
+            res['C10'] = ('fail', {'kind': 'second-generation-raises:' + type(e).__name__, 'detail': str(e)[:100]})
     # ---- C07 behaviour
     try:
         text = ast.unparse(ast.fix_missing_locations(out))
@@ -268,9 +294,16 @@ def work(args):
             out['counts']['skipped-nonterminating'] += 1
             continue
         out['paths'] += len(ref)
-        r8 = check_c08(src, ref)
-        rr = check_c07_c10(src, ref)
-        kr = known_region(src)
+        try:
+            r8 = check_c08(src, ref)
+            rr = check_c07_c10(src, ref)
+            kr = known_region(src)
+        except BaseException as e:     # a crash of the checker on one program must not take the pass down
+            if isinstance(e, (KeyboardInterrupt, SystemExit)):
+                raise
+            out['counts']['checker-exception:' + type(e).__name__] += 1
+            out.setdefault('checker_exceptions', []).append({'source': src, 'error': repr(e)[:200]})
+            continue
         for prop, r in (('C08', r8), ('C07', rr['C07']), ('C10', rr['C10'])):
             relevant = [k for k in kr if k in REGION_PROPS.get(prop, ())]
             if r[0] == 'fail' and relevant:
@@ -299,5 +332,6 @@ def run(pool, tier, seed):
         d['counts'].update(r['counts'])
         if r['samples'] and len(d['samples']) < 3:
             d['samples'] += r['samples']
+        d.setdefault('checker_exceptions', []).extend(r.get('checker_exceptions', []))
     d['counts'] = dict(d['counts'])
     return d
